@@ -463,9 +463,14 @@ impl Run {
                     continue;
                 }
                 let Ok(case) = serde_json::from_value::<S::Case>(rf.case.clone()) else {
-                    self.inconclusive(format!("regress case {} does not deserialize", f.display()));
+                    // a case written for an earlier shape of this sub-check: say so, do not let it break the run
+                    eprintln!("[{}] note: regress case {} no longer deserializes and was skipped", self.property, f.display());
+                    *stats.labels.entry("regress-skipped:undeserializable".into()).or_default() += 1;
                     continue;
                 };
+                if s.crash_guard() {
+                    crash::set_current(&self.property, &name, &serde_json::to_string(&case).unwrap_or_default());
+                }
                 let mut obs = Obs::default();
                 stats.evaluations += 1;
                 *stats.labels.entry("source=regress".into()).or_default() += 1;
